@@ -637,10 +637,17 @@ H_TS_TEXTS = ("2009-02-13T23:31:30Z", "2009-02-13T23:31:30+00:00", "2009-02-14T0
 H_ACC_ZONES = ("+05:45", "-05:45", "Asia/Kathmandu", "UTC")
 
 
+# two instants in the same UTC clock hour on either side of a zone transition that does not fall on a UTC hour (and one
+# pair around an hour-aligned transition): a zone offset remembered per (zone, hour) or per zone must not leak from one to the other
+H_EDGE = (("2021-10-02T15:15:00Z", "Australia/Lord_Howe"), ("2021-10-02T15:45:00Z", "Australia/Lord_Howe"), ("1985-12-31T18:15:00Z", "Asia/Kathmandu"),
+          ("1985-12-31T18:45:00Z", "Asia/Kathmandu"), ("2021-03-14T06:45:00Z", "America/New_York"), ("2021-03-14T07:15:00Z", "America/New_York"))
+
+
 def hist_terms():
     out = [["dur", sign + b] for b in H_DUR_BODIES for sign in ("", "-", "+")]
     out += [["ts", t] for t in H_TS_TEXTS]
     out += [["acc", t, a, z] for t in H_TS_TEXTS[:2] for a in ("getHours", "getMinutes") for z in H_ACC_ZONES]
+    out += [["acc", t, a, z] for t, z in H_EDGE for a in ("getHours", "getMinutes")]
     return out
 
 
